@@ -585,8 +585,8 @@ def r75(e: Engine, rep: Report):
     for meth, code, attrs in RESET_POINTS:
         if meth == '_get_message_data':
             trig = (lambda n: n.kind == 'call' and
-                    e.call_name(n) in ('send_reply', 'send') and
-                    is_reply_send(e, n) is not None)
+                    e.call_name(n) == '_call_custom_handler' and
+                    cb_name(n) == 'HAVE_DATA')
         else:
             trig = (lambda n: n.kind == 'call' and
                     e.call_name(n) == '_call_custom_handler')
